@@ -206,6 +206,10 @@ def _(values: Any, indices: Sequence[int]) -> Any:
 
 @drop_rows.register
 def _(values: numpy.ndarray, indices: Sequence[int]) -> numpy.ndarray:
+    if isinstance(values, FactorValues):
+        # `numpy.delete` reads a wrapped array of strings with the wrong item
+        # size (the result is an unwrapped array in any case).
+        values = values.__wrapped__
     return numpy.delete(values, indices, axis=0)
 
 
